@@ -363,14 +363,14 @@ static void check_run(Checker& k, const RunExpect& x, size_t from, size_t to, co
     // (and not what its own filters select): one key for the history defect instead of one per symptom.
     bool leftover_explains = false;
     if (x.leftover_gf && x.leftover_nf && x.shouldrun_agrees) {
-        bool differs = false, matches = true; int witness = -1;
+        bool differs = false, matches = true; int witness = -1; size_t ndiff = 0;
         for (size_t i = 0; i < n; i++) {
             bool s2 = m_selected(*x.leftover_gf, *x.leftover_nf, T[i]);
-            if (s2 != (bool) sel[i]) { differs = true; if (witness < 0) witness = (int) i; }
+            if (s2 != (bool) sel[i]) { differs = true; ndiff++; if (witness < 0) witness = (int) i; }
             if (ts_cnt[i] != (s2 ? 1 : 0)) matches = false;
         }
         if (differs) c.count("later_invocation_repetitions_where_leftover_filters_would_change_the_selection");
-        if (differs && matches) {
+        if (differs && matches && ndiff >= 2) {                 // (one differing test is too easily a coincidence with some other defect: generic keys then)
             leftover_explains = true; counts_ok = false;
             k.viol(std::string("runner-history:selection-follows-filters-of-an-earlier-invocation:") + x.leftover_kinds,
                    "this invocation gives group filters " + filters_json(*x.gf) + " and name filters " + filters_json(*x.nf) + " but exactly the tests selected by group filters " +
